@@ -583,6 +583,26 @@ func TestVerifC06(t *testing.T) {
 		src1 := "on: push\njobs:\n  j:\n    uses: owner/repo/.github/workflows/w.yml@v1\n" + tail
 		c06E2ECompare(r, src0, src1, "needs-outputs-unknown")
 	}
+	// the webhook payload github.event is an open object whatever the triggers are: the same consumers
+	// with and without a workflow_dispatch trigger (which adds the typed github.event.inputs)
+	for _, cons := range []string{"github.event.pull_request.title", "github.event['repository'].name", "github.event.pull_request.labels.*.name", "github.event.x.y.z", "toJSON(github.event)", "github.event.number == 1", "contains(github.event.head_commit.message, 'x')", "github.event.client_payload.a[0]"} {
+		for _, trig := range []string{"  workflow_dispatch:\n", "  workflow_dispatch:\n    inputs:\n      din:\n        type: string\n", "  workflow_dispatch:\n    inputs:\n      din:\n        type: boolean\n      other:\n        type: choice\n        options: [a]\n"} {
+			for _, first := range []bool{false, true} {
+				idx++
+				if !r.Mine(idx) {
+					continue
+				}
+				mk := func(extra string) string {
+					on := "on:\n  pull_request:\n" + extra
+					if first {
+						on = "on:\n" + extra + "  pull_request:\n"
+					}
+					return on + "jobs:\n  a:\n    runs-on: ubuntu-latest\n    steps:\n      - run: echo\n        env:\n          V: ${{ " + cons + " }}\n        if: ${{ " + cons + " }}\n"
+				}
+				c06E2ECompare(r, mk(""), mk(trig), "event-payload-open-with-dispatch-trigger")
+			}
+		}
+	}
 	// a matrix given as ONE expression whose include list has elements of known type vs the same list
 	// with one more element that makes the element type unknown
 	for _, cons := range []string{"matrix.x", "matrix.X", "matrix['x']", "matrix.os", "toJSON(matrix)", "matrix.x == 1", "matrix.x.y", "matrix.nope"} {
